@@ -929,6 +929,14 @@ def modelled_case(rnd, subs=None):
         k = rnd.randrange(10)
         colors.append(bad_color_text(rnd) if k == 0 else ("-" if k == 1 else rand_color_text(rnd)))
     colors = [c for c in colors if c == "-" or not c.startswith("-")]
+    # neighbours: two consecutive colours that are equal as 8-bit colours (or nearly) but print differently -
+    # whatever is remembered from one colour must not leak into the next line
+    if len(colors) >= 2 and rnd.random() < 0.3:
+        i = rnd.randrange(len(colors) - 1)
+        hh, ss, ll = rnd.randrange(360), rnd.uniform(0, 100), rnd.uniform(0.5, 99)
+        colors[i] = "hsl(%d,%.1f%%,%.1f%%)" % (hh, ss, ll)
+        colors[i + 1] = rnd.choice(["hsl(%d,%.1f%%,%.1f%%)" % (hh, ss, ll + 0.1), "hsl(%d,%.1f%%,%.1f%%)" % (hh, min(100.0, ss + 0.1), ll),
+                                    "hsl(%d,%.1f%%,%.1f%%)" % (hh, ss, ll), "hsla(%d,%.1f%%,%.1f%%,0.999)" % (hh, ss, ll)])
     if sub == "gradient" and not colors:
         colors = ["red"]
     if sub == "paint":
@@ -1700,8 +1708,17 @@ def c08(res, tier, seed, lib):
     if tier != "thorough":
         combos = [c for i, c in enumerate(combos) if i % 3 == seed % 3]
     ops, meta, refq = [], [], []
-    for (n, k, sp) in combos:
+    for ci, (n, k, sp) in enumerate(combos):
         texts = [rand_color_text(rnd) for _ in range(k)]
+        if ci % 4 == 0:
+            # stops that lie closer together than one 8-bit step (or coincide as 8-bit colours) but print
+            # differently: every line is still the sample at its own position
+            hh, ss, ll = rnd.randrange(360), rnd.uniform(0, 100), rnd.uniform(1, 98)
+            g = rnd.randrange(1, 255)
+            texts = rnd.choice([["#%02x%02x%02x" % (g, g, g), "#%02x%02x%02x" % (g + 1, g + 1, g + 1)],
+                                ["hsl(%d,%.1f%%,%.1f%%)" % (hh, ss, ll), "hsl(%d,%.1f%%,%.1f%%)" % (hh, ss, ll + 0.1)],
+                                ["hsl(%d,%.1f%%,%.1f%%)" % (hh, ss, ll), "hsl(%d,%.1f%%,%.1f%%)" % (hh, ss, ll + 0.3), "hsl(%d,%.1f%%,%.1f%%)" % (hh, ss, ll)]])
+            k = len(texts)
         inf = infos(texts)
         spx = rnd.choice(spell[sp])      # any letter case of the name selects the same space
         rc, out, err = run_cli(["gradient", "-n", str(n), "-s", spx] + texts)
